@@ -21,7 +21,35 @@ use logshared::{handler_result, level, static_name, value};
 /// Receiver of the logger installed for the `resp` cases.
 static RX: Mutex<Option<Receiver<LogEvent>>> = Mutex::new(None);
 
+/// A sink that fails once `limit` bytes have been accepted (a full disk, a closed pipe).
+struct FailAfter {
+    limit: usize,
+    taken: usize,
+}
+impl std::io::Write for FailAfter {
+    fn write(&mut self, buf: &[u8]) -> std::io::Result<usize> {
+        if self.taken >= self.limit {
+            return Err(std::io::Error::new(std::io::ErrorKind::Other, "scripted sink failure"));
+        }
+        let n = buf.len().min(self.limit - self.taken);
+        self.taken += n;
+        Ok(n)
+    }
+    fn flush(&mut self) -> std::io::Result<()> {
+        Ok(())
+    }
+}
+
+/// The line of an event must not depend on what was written before on the same thread -- in particular not on an
+/// earlier write that FAILED part-way: before every rendering the same event is first written into a sink that
+/// fails after a case-dependent number of bytes (0, 1, ... up to the line length), and the error is ignored.
 fn render(ev: &LogEvent) -> String {
+    let mut probe: Vec<u8> = Vec::new();
+    ev.write_jsonl(&mut probe).unwrap();
+    static ROUND: std::sync::atomic::AtomicUsize = std::sync::atomic::AtomicUsize::new(0);
+    let r = ROUND.fetch_add(1, std::sync::atomic::Ordering::SeqCst);
+    let limit = (r.wrapping_mul(7919) + r / 3) % (probe.len() + 1);
+    let _ = ev.write_jsonl(&mut FailAfter { limit, taken: 0 });
     let mut out: Vec<u8> = Vec::new();
     ev.write_jsonl(&mut out).unwrap();
     tok_of_bytes(&out)
